@@ -286,6 +286,64 @@ def r19e(ctx, rep, cr):
     rep.floor('R19e', 'store_chunk calls in the streaming writer', n, 2)
 
 
+def r19f(ctx, rep, cr):
+    rep.rule('R19f', 'every count is per listed occurrence: wherever reference counts are recomputed from the artifacts\' `_chunks` lists '
+                     '(integrity::repair), the key that is counted comes straight out of the list — its data path passes through no '
+                     'de-duplicating collection (HashSet / BTreeSet) or dedup call. The writer adds one reference per occurrence and '
+                     'delete_artifact removes one per occurrence; a recount of one per artifact leaves a chunk repeated inside an artifact '
+                     'short, and deleting that artifact frees a chunk another artifact still lists')
+    n = 0
+    for name, f in sorted(cr.fns.items()):
+        if '{closure' in name:
+            continue
+        gp0 = A.calls_to(f, ('re', r'get_pointers$'))
+        if not gp0:
+            continue
+        defs = A.Defs(f)
+        gp = [c for c in gp0 if any('_chunks' in x for a in c.args for x in lib.value_sig(f, defs, a))]
+        if not gp:
+            continue
+        # counting sites: map.entry(key).or_insert(..) / or_default() whose slot is incremented
+        for c in A.calls(f):
+            if not re.search(r'hash_map::Entry<.*>::(or_insert|or_default|or_insert_with)$|Entry::<.*>::(or_insert|or_default|or_insert_with)$|::(or_insert|or_default)$', c.resolved):
+                continue
+            slot = c.dest[0]
+            inc = False
+            for b in f.bbs:
+                for st in b['s']:
+                    rv = st[1]
+                    if rv[0] == 'bin' and rv[1] in ('Add', 'AddWithOverflow'):
+                        ls = set()
+                        for op in (rv[2], rv[3]):
+                            if op[0] != 'k':
+                                ls.add(op[1][0])
+                        if slot in ls or any(slot in (defs.ref_targets(x) | {x}) for x in ls):
+                            inc = True
+            if not inc:
+                continue
+            # the key: argument of the entry() call that produced the Entry
+            ed = A.single_def(defs, c.args[0][1][0]) if c.args and c.args[0][0] != 'k' else None
+            if not ed or ed[2] != 'call' or len(ed[3].args) < 2:
+                continue
+            key = ed[3].args[1]
+            sl = A.backward_slice(f, [key], defs)
+            if not any(g.dest[0] in sl.locals for g in gp):
+                continue
+            n += 1
+            rep.analysed(f)
+            lib.provenance_fields(f, defs, key)
+            pl = lib.provenance_fields.last_locals
+            dedup = sorted({f.locals[l] for l in pl if re.search(r'(Hash|BTree|Index)Set<', f.locals[l])}) or \
+                sorted(x for x in sl.calls if re.search(r'::(dedup|dedup_by|dedup_by_key|unique)$', x))
+            if dedup:
+                rep.violation('R19f', f, 'count-per-artifact', f.loc(c.line),
+                              'the recount takes its keys from a de-duplicated view of `_chunks` (%s): a chunk that occurs twice in one '
+                              'artifact is counted once, while store_chunk added and delete_artifact removes one reference per occurrence' % dedup[0][:60])
+            else:
+                rep.holds('R19f', f, 'recount per occurrence', 'keys come straight from the `_chunks` list')
+    rep.floor('R19f', 'reference recount sites', n, 1)
+
+
 def run(ctx, rep):
     cr = ctx.crate('tensor_blob')
     cg = ctx.callgraph(['tensor_blob'])
@@ -294,3 +352,4 @@ def run(ctx, rep):
     r19c(ctx, rep, cr, cg)
     r19d(ctx, rep, cr)
     r19e(ctx, rep, cr)
+    r19f(ctx, rep, cr)
